@@ -285,6 +285,7 @@ NUMBER_KINDS = {"numbers.Number", "numbers.Real", "numbers.Integral"}
 
 
 def isinstance_(ex, v, t) -> VBool:
+    v = ex.resolve(v)
     names = []
     type_names(ex, t, names)
     libs = {n for n in names if isinstance(n, str)}
